@@ -48,6 +48,8 @@ def replay(c, consts_, nbeh, depth, seed, label, conc=0, check_restore=False, **
 
 def replay_file(c, path):
     payload = json.load(open(path))
+    if payload.get("mode") == "dkvtrace":
+        return replay_trace(c, payload)
     res = vlib.run_harness("dkv", payload)
     c.add_harness(res, payload, "replay " + path)
 
@@ -133,3 +135,64 @@ def run_scripts(c, check_restore):
         payload = dict(property=c.prop, seed=0, config=harness_cfg(cs, conc, CheckRestore=check_restore, Chunk=1), behaviours=behs)
         res = vlib.run_harness("dkv", payload, timeout=900)
         c.add_harness(res, payload, "directed scripts (%d, conc %d): %s" % (len(behs), conc, " ".join(SCRIPTS)))
+
+
+# ---------------------------------------------------------------- free-running traces ----
+def trace_arm(c, runs, ops, seed, props=("C07", "C08")):
+    """record API traces of the real DB with free-running background goroutines and random configurations,
+    validate them with DkvAbsTrace.tla; a rejected Get/Scan line is a C07 violation, a Restore line a C08 one"""
+    payload = dict(property=c.prop, seed=seed, config=dict(Ops=ops, Chunk=20), behaviours=[[{"run": i}] for i in range(runs)])
+    res = vlib.run_harness("dkvtrace", payload, timeout=3000)
+    traces = res.pop("traces", [])
+    c.add_harness(res, payload, "dkvtrace recording (%d runs x %d ops, free-running background)" % (runs, ops))
+    consts_ = dict(NKeys=12, NVals=4, MaxOps=0)
+    # validate in chunks of <= 25k events
+    chunk, chunks = [], []
+    for t in traces:
+        if chunk and len(chunk) + len(t) > 25000:
+            chunks.append(chunk)
+            chunk = []
+        if chunk:
+            chunk.append({"op": "Reset"})
+        chunk.extend(t)
+    if chunk:
+        chunks.append(chunk)
+    for ci, events in enumerate(chunks):
+        while True:
+            ok, at, tr = vlib.validate_trace("DkvAbsTrace", consts_, events, name="DkvAbsTrace")
+            c.add_tlc(tr, "DkvAbsTrace validation chunk %d (%d events)" % (ci, len(events)), must_hold=False)
+            runs_ = vlib.split_runs(events)
+            if ok:
+                c.traces += len(runs_)
+                if ci == 0 and runs_:
+                    c.sample(dict(kind="recorded dkv.DB API trace (first 20 events of a run)", events=runs_[0][1][:20]))
+                break
+            bad = [r_ for r_ in runs_ if r_[0] <= at][-1]
+            line = events[at - 1] if at <= len(events) else {}
+            prop = "C08" if line.get("op") in ("Restore", "Reopen") else "C07"
+            if prop == c.prop:
+                c.add_violation("recorded dkv.DB trace rejected by DkvAbsTrace.tla at event %d of the run: %s" %
+                                (at - bad[0] + 1, json.dumps(line)[:300]),
+                                dict(mode="dkvtrace", seed=seed, run_events=bad[1], rejected_index=at - bad[0]))
+            # drop the rejected run and validate the rest of the chunk
+            keep = []
+            for st, evs in runs_:
+                if st == bad[0]:
+                    continue
+                if keep:
+                    keep.append({"op": "Reset"})
+                keep.extend(evs)
+            events = keep
+            if not events:
+                break
+
+
+def replay_trace(c, payload):
+    """--replay of a rejected recorded run: validate the stored events again (they are what the real code did)"""
+    events = payload["run_events"]
+    ok, at, tr = vlib.validate_trace("DkvAbsTrace", dict(NKeys=12, NVals=4, MaxOps=0), events)
+    c.add_tlc(tr, "DkvAbsTrace validation of the stored run", must_hold=False)
+    if not ok:
+        c.add_violation("stored dkv.DB trace rejected at event %d: %s" % (at, json.dumps(events[at - 1])[:300]), payload)
+    else:
+        c.traces += 1
